@@ -18,6 +18,7 @@ import EsbuildModel.Impl.Lower
 import EsbuildModel.Impl.ChunkHash
 import EsbuildModel.Impl.Order
 import EsbuildModel.Impl.Stdio
+import EsbuildModel.Impl.NumPrint
 
 open EsbuildModel
 
@@ -43,6 +44,7 @@ def dispatch (kernel : String) (args : List String) : String :=
   | "chunkhash" => ChunkHash.driver args
   | "order" => Order.driver args
   | "stdio" => Stdio.driver args
+  | "numprint" => NumPrint.driver args
   | _ => "bad-kernel"
 
 partial def loop (hin hout : IO.FS.Stream) : IO Unit := do
